@@ -62,6 +62,11 @@ def build_inputs(rng, prods, start, terms):
     return inputs
 
 
+import logging  # noqa: E402
+logging.getLogger(llparser.__name__).addHandler(logging.NullHandler())
+logging.getLogger(llparser.__name__).propagate = False
+
+
 def make_case(rng):
     cfg_id = rng.randrange(len(llmon.TOKCFGS))
     cfg = llmon.TOKCFGS[cfg_id]
@@ -86,6 +91,10 @@ def judge_parse(ctx, mon, cfg, parser, prods, start, toks, text, expected, smart
         kw["start_symbol_name"] = explicit_start
         start = explicit_start
         ctx.count("parses_with_explicit_start_symbol")
+    if len(text) % 7 == 3:
+        # the parser is asked to log what it does (the messages themselves go nowhere)
+        kw["debug"] = True
+        ctx.count("parses_with_debug_logging")
     try:
         tree = parser.parse(text.split("\n") if as_lines else text, do_cleanup=False, **kw)
     except llparser.ParsingError:
